@@ -36,7 +36,7 @@ pub fn check(deep: bool, st: &mut TStats, fails: &mut Vec<Failure>) {
         if let Ok(f) = fol::Formula::from_str(t) {
             let mut fv = Vec::new();
             free_vars(&f, &mut Vec::new(), &mut fv);
-            if fv.is_empty() && quantified_variables(&f) <= 12 && exactly_evaluable(&f) && !f.predicates().is_empty() { srcs.push(rename(&f)); }
+            if fv.is_empty() && quantified_variables(&f) <= 12 && (exactly_evaluable(&f) || crate::simp::pure_small(&f)) && !f.predicates().is_empty() { srcs.push(rename(&f)); }
         }
     }
     // systematic: chains of one to three comparisons over every pair of relations, on their own and under every connective
@@ -117,6 +117,12 @@ pub fn check(deep: bool, st: &mut TStats, fails: &mut Vec<Failure>) {
             let rendered = &conj[0].2;
             let src = cheapest_first(f);
             let seed = f.to_string().bytes().fold(0xcbf29ce484222325u64, |h, b| (h ^ b as u64).wrapping_mul(0x100000001b3));
+            // interpretations with co-finite extents (pure.rs), for formulas without arithmetic and order comparisons
+            if crate::simp::pure_small(f) && crate::simp::pure_small(rendered) {
+                evals += 12;
+                if let Some(d) = crate::pure::first_difference(f, rendered, true, 12, seed) { fl.push(Failure { property: "C06", input: format!("{what}`spec: {f}.`"), detail: format!("source formula and TPTP rendering (read back) differ: {d}") }); continue; }
+            }
+            if !exactly_evaluable(f) || !exactly_evaluable(rendered) { continue; }
             let (mut t, mut fa) = (false, false);
             for (mi, m) in sample_interpretations(&uni, n_interp, seed).into_iter().enumerate() {
                 // placeholder values: the TPTP names carry the sort suffix, the source formula sees "@name"
